@@ -60,23 +60,26 @@ func keysOperator(_ *dataTreeNavigator, context Context, _ *ExpressionNode) (Con
 }
 
 func getMapKeys(node *CandidateNode) *CandidateNode {
-	contents := make([]*CandidateNode, 0)
+	// the result is a sequence of its own: it holds copies of the key nodes, not the map's key nodes themselves
+	result := &CandidateNode{Kind: SequenceNode, Tag: "!!seq"}
 	for index := 0; index < len(node.Content); index = index + 2 {
-		contents = append(contents, node.Content[index])
+		key := node.Content[index].Copy()
+		key.SetParent(result)
+		result.Content = append(result.Content, key)
 	}
-	return &CandidateNode{Kind: SequenceNode, Tag: "!!seq", Content: contents}
+	return result
 }
 
 func getIndices(node *CandidateNode) *CandidateNode {
-	var contents = make([]*CandidateNode, len(node.Content))
+	result := &CandidateNode{Kind: SequenceNode, Tag: "!!seq"}
 
 	for index := range node.Content {
-		contents[index] = &CandidateNode{
+		result.AddChild(&CandidateNode{
 			Kind:  ScalarNode,
 			Tag:   "!!int",
 			Value: fmt.Sprintf("%v", index),
-		}
+		})
 	}
 
-	return &CandidateNode{Kind: SequenceNode, Tag: "!!seq", Content: contents}
+	return result
 }
